@@ -192,7 +192,7 @@ func solveObl(vc *VC, o *Obl, dir string, tier string, seed int, idx int) {
 			t = 8
 		}
 		cctx, cancel := context.WithCancel(ctx)
-		ch := make(chan tagged, 5)
+		ch := make(chan tagged, 16)
 		n := 0
 		for _, s := range solvers[1:] {
 			n++
@@ -201,8 +201,18 @@ func solveObl(vc *VC, o *Obl, dir string, tier string, seed int, idx int) {
 		// the best solver gets the long budget on the full script in any case: a quantified goal that
 		// needs a few seconds misses the short budget on a loaded machine, and the axiom-free
 		// variants' "sat" says nothing about it
-		n++
-		go func() { ch <- tagged{runSolver(cctx, solvers[0], file, slowT, seed+1), false} }()
+		// ... under three further seeds, on the full script and on the variant without the string
+		// axioms: an obligation that is true but sensitive to the solver's choices is then lost only
+		// if every one of these runs is unlucky
+		for _, ds := range []int{1, 2, 3} {
+			ds := ds
+			n++
+			go func() { ch <- tagged{runSolver(cctx, solvers[0], file, slowT, seed+ds), false} }()
+			if fileNA != file && ds > 1 {
+				n++
+				go func() { ch <- tagged{runSolver(cctx, solvers[0], fileNA, slowT, seed+ds), true} }()
+			}
+		}
 		if candidate == nil {
 			// nothing answered within the short budget: the long budget on every variant
 			if fileNA != file {
